@@ -130,9 +130,11 @@ def run(db, chk):
             for mode in ("seq", "par"):
                 o = outs[mode]
                 rec = o["receiver"]
-                ent = [v for v in o["donors"].get(rec, []) if v == CENTRE]
+                row = o["donors"].get(rec, [])
+                ent = [v for v in row if v == CENTRE]
+                others = [v for v in row if v != CENTRE and v != rec]      # self entries of the receiver aside
                 skip = (sc.centre_masked or sc.centre_base) and mode == "seq"
-                if not skip and (len(ent) != 1 or o["donors_count"].get(rec) not in (1,)):
+                if not skip and (len(ent) != 1 or others or o["donors_count"].get(rec) != len(row)):
                     don_ok = False
             ok = same and don_ok
             if not ok:
